@@ -22,7 +22,8 @@ EXPLANATION = (
     "every registered name (aliases included); (3) palette cache coherence: _pal_attrspec and _pal_escape are written together, and every method that changes a terminal property the "
     "cached escapes depend on (colors, fg_bright_is_bold, has_underline) rebuilds the cache for the whole palette on every path; (4) palette lookups by a canvas attribute are total "
     "(membership test or .get with a default): undefined names fall back instead of raising; (5) AttrMap.render selects the focus map only under `focus and _focus_map is not None` and "
-    "applies the map to a fresh composite; (6) CUTATTR: the space replacing a cut wide character keeps the cut character's attribute."
+    "applies the map to a fresh composite; (7) attribute remaps compose with .get(k, default), so a remap to None is kept; (8) FRESHLIST: applying a map never rewrites a shard list shared with the wrapped widget's "
+    "cached canvas (otherwise the wrapper's attributes are baked into the child and survive a later set_attr_map); (6) CUTATTR: the space replacing a cut wide character keeps the cut character's attribute."
 )
 NOT_DECIDED = "Run-length alignment of attributes through layout and encoding, composition order of nested maps as a value statement, the SGR text produced for every AttrSpec and its decoding."
 ASSUMPTIONS = []
@@ -245,7 +246,12 @@ def rule_attrmap(ctx: Ctx) -> RuleResult:
 def run(ctx: Ctx):
     r6 = c02.rule_cut_attr(ctx)
     r6.clause = "C17.6"
-    return [rule_palette_order(ctx), rule_palette_notify(ctx), rule_palette_cache(ctx), rule_palette_total(ctx), rule_attrmap(ctx), r6]
+    from ..rules import fresh
+
+    r7 = c02.rule_get_or(ctx)
+    r7.clause = "C17.7"
+    r8 = fresh.run_fresh(ctx.p, "C17.8", ["urwid.canvas"], floor=30)
+    return [rule_palette_order(ctx), rule_palette_notify(ctx), rule_palette_cache(ctx), rule_palette_total(ctx), rule_attrmap(ctx), r6, r7, r8]
 
 
 _CM = "urwid/display/common.py"
